@@ -1,6 +1,7 @@
 package main
 
 import (
+	"fmt"
 	"go/parser"
 	"strings"
 )
@@ -10,8 +11,8 @@ func init() { props["C10"] = propC10 }
 // C10: expressions and ${} blocks are consumed whole or rejected at load.
 func propC10(c *ctx) error {
 	res := c.res
-	res.Rule = "well-formed expressions e (generated ASTs) x non-continuing suffixes s (';', newline+operand, operand, closing bracket, '}', unlexable bytes, after newline/comment) must be rejected; e with insignificant white space / comments must be accepted; every truncation of a well-formed directive value inside ${} must be rejected by the code scanner and at template load, in every directive kind; distinct = distinct text; non-trivial = all"
-	suffixes := []string{";", ";2", "; 2", "\n2", " 2", ")", "]", "}", " #", "\n#", " $", "\n@", "\n\"", ";[}'//", "\n\"/*", " )", " ,", ",1", "\n+ 1", "\n\\", " `", " '", "\n;", ";;", " b1", "\n// c\n2", " /* c\nd */ 2", "\n/* c */ #"}
+	res.Rule = "well-formed expressions e (generated ASTs) x non-continuing suffixes s (';', unterminated comment, newline+operand, operand, closing bracket, '}', unlexable bytes, after newline/comment) must be rejected; e with insignificant white space / comments must be accepted; every truncation of a well-formed directive value inside ${} must be rejected by the code scanner and at template load, in every directive kind; distinct = distinct text; non-trivial = all"
+	suffixes := []string{";", ";2", "; 2", "\n2", " 2", ")", "]", "}", " #", "\n#", " $", "\n@", "\n\"", ";[}'//", "\n\"/*", " )", " ,", ",1", "\n+ 1", "\n\\", " `", " '", "\n;", ";;", " b1", "\n// c\n2", " /* c\nd */ 2", "\n/* c */ #", " /* never closed", "\n/* never\nclosed", " /*"}
 	harmless := []string{"", " ", "\n", " // c", " /* c */", "\t\n", " /* a\nb */", "\n// c", "\r\n", " /* c */ // d"}
 	askParse := func(src string) (string, error) {
 		if c.d == nil {
@@ -75,6 +76,31 @@ func propC10(c *ctx) error {
 		}
 		if err := checkParse(full, false, "trailing text after a complete expression accepted"); err != nil {
 			return err
+		}
+		// the same rejected text as a COMPLETE ${ } block of a directive value: rejected at load — on the first load and on
+		// every later one (a fresh manager each time: nothing learnt from an earlier, failed compilation may be reused)
+		if !strings.ContainsAny(full, "{}'\"<>&") && (i%4 == 0 || !c.quick()) {
+			k := []string{"text", "raw", "if", "title", "with", "range", "insert", "elif"}[r.n(8)]
+			val := "${" + full + "}"
+			if k == "with" {
+				val = "w := " + val
+			}
+			tsrc := "<p :" + k + "='" + val + "'>x</p>"
+			if k == "elif" {
+				tsrc = "<p :if='${true}'>y</p>" + tsrc
+			}
+			for round := 1; round <= 3; round++ {
+				rc := &renderCase{Files: [][2]string{{"t", tsrc}}, Tpl: "t"}
+				out := implRender(rc, -1)
+				res.S3Checked++
+				if out.Load == "ok" {
+					res.violate(J{"files": rc.Files, "load_number": round}, "load error", J{"load": out.Load, "st": out.St, "out": out.text()},
+						"directive value whose ${ } block holds a complete expression followed by trailing text loads (load number "+fmt.Sprint(round)+")")
+					break
+				}
+			}
+			res.eval("t|"+tsrc, true, J{"tpl": tsrc})
+			res.count("complete_block_with_trailing_text")
 		}
 		h := r.pick(harmless)
 		if err := checkParse(r.pick([]string{"", " ", "\n", "/* c */ "})+src+h, true, "well-formed expression with insignificant white space / comments rejected"); err != nil {
